@@ -303,6 +303,10 @@ class CMapParser(PSStackParser[PSKeyword]):
         except PSEOF:
             pass
 
+    # CIDs and the codes of a ToUnicode CMap do not exceed 16 bits: a range
+    # never has more entries than this, whatever its bounds say.
+    MAX_RANGE = 65536
+
     KEYWORD_BEGINCMAP = KWD(b"begincmap")
     KEYWORD_ENDCMAP = KWD(b"endcmap")
     KEYWORD_USECMAP = KWD(b"usecmap")
@@ -404,7 +408,7 @@ class CMapParser(PSStackParser[PSKeyword]):
                 start = nunpack(svar)
                 end = nunpack(evar)
                 vlen = len(svar)
-                for i in range(end - start + 1):
+                for i in range(min(end - start + 1, self.MAX_RANGE)):
                     x = start_prefix + struct.pack(">L", start + i)[-vlen:]
                     self.cmap.add_cid2unichr(cid + i, x)
             return
@@ -453,7 +457,7 @@ class CMapParser(PSStackParser[PSKeyword]):
                     base = nunpack(var)
                     prefix = code[:-4]
                     vlen = len(var)
-                    for i in range(end - start + 1):
+                    for i in range(min(end - start + 1, self.MAX_RANGE)):
                         x = prefix + struct.pack(">L", base + i)[-vlen:]
                         self.cmap.add_cid2unichr(start + i, x)
             return
